@@ -23,7 +23,8 @@ import DEngine.Model.MiniKv
   * `replayWal`                         — file_state_machine.rs `replay_wal` as reached from
         `FileStateMachine::new` (i.e. with `self.lease == None`: the lease is injected later by
         `set_lease`): Insert with `expire_at != 0 && now >= expire_at` is skipped (not deleted), other
-        Inserts are applied, Delete removes, CasFailed/Noop nothing; WAL cleared afterwards.
+        Inserts are applied, Delete removes, CasFailed/Noop nothing; then (fix 18b31d1) `checkpoint()`:
+        the recovered data is persisted and the WAL cleared (an empty / missing WAL returns early).
   * `step .ckpt`                        — `flush_async` (File: `checkpoint` = persist data + metadata, clear WAL;
         RocksDB: `flush`, no TTL effect).
   * `step .restart`                     — production shutdown path `close_storage()` + `Drop`
@@ -147,7 +148,10 @@ def walAppend (s : St) (r : WalRec) : List WalRec :=
 def reopen (s : St) : St :=
   match s.eng with
   | .file =>
-    { s with data := replayWal s.now s.dData s.wal, wal := [], lease := loadLease s.dTtl s.now }
+    -- since fix 18b31d1 a non-empty WAL is followed by `checkpoint()`: the recovered data is persisted
+    let d := replayWal s.now s.dData s.wal
+    { s with data := d, wal := [], lease := loadLease s.dTtl s.now
+             dData := if s.wal.isEmpty then s.dData else d }
   | .rocks => { s with lease := loadLease s.dTtl s.now }
 
 /-! ## one step -/
